@@ -16,6 +16,14 @@ Hand-written; tied to the code on every run by drv_c18 which replays the
 harness trace (harness/overlay/sweep/zz_c18_verif_test.go) on these
 definitions and compares every answer.
 
+* `sweep/aggregator.go` (`ClusterInputs`, `filterInputs`, `isDustOutput`), `sweep/tx_input_set.go`
+  (`Budget`, `StartingFeeRate`, `NeedWalletInput`, `AddWalletInputs`), `lnwallet.DustLimitForSize`,
+  and the `BumpRequest` `UtxoSweeper.sweep` builds from a set (end of this file).
+
+Fixed-width arithmetic: the fee function, `FeeForWeight` and `calcCurrentConfTarget` wrap exactly
+as the Go code does (`wrap64`, `wrap32`, `u32Mod`); `LndModel/C18/GenRefine.lean` proves these
+definitions equal to the ones regenerated from the Go source (`LndModel.Gen.C18`) for all inputs.
+
 Not modelled (taken from the implementation as parameters): the transaction
 weight (`getWeightEstimate`), witness generation, spend detection
 (`getSpentInputs` is taken to report "nothing spent").
